@@ -92,6 +92,10 @@ func (s SuffrageProof) Prove(previousState base.State) error {
 
 	switch {
 	case s.m.Manifest().Height() == base.GenesisHeight:
+	case previousState == nil:
+		return e.Errorf("empty previous state for non-genesis")
+	case s.st.Previous() == nil:
+		return e.Errorf("empty previous state hash for non-genesis")
 	case s.st.Height() <= previousState.Height():
 		return e.Errorf("invalid previous state; higher height")
 	case !s.st.Previous().Equal(previousState.Hash()):
